@@ -175,6 +175,40 @@ def run(p: Program, rep: Report, tier: str) -> None:
                 rep.undecide("R8.2", f"unknown pattern method .{f.attr}")
     if n_apply == 0:
         rep.undecide("R8.2", "no application of the compiled pattern found in Route.matches")
+    # the parameters are read from the match BY NAME (groupdict); reading them by POSITION (groups(), group(n), match[n]) pairs the
+    # n-th placeholder with the n-th capturing group of the whole pattern - wrong as soon as a convertor's own regex contains a
+    # capturing group (decimal: `[0-9]+(\.[0-9]+)?`), because that group shifts every later placeholder
+    from ..common import with_helpers as _wh8
+    import re._constants as _C8
+    import re._parser as _P8
+    positional = []
+    for f_ in _wh8(p, matches):
+        for n in ast.walk(f_.node):
+            if isinstance(n, ast.Call) and isinstance(n.func, ast.Attribute) and n.func.attr == "groups":
+                positional.append((f_, n))
+            elif isinstance(n, ast.Call) and isinstance(n.func, ast.Attribute) and n.func.attr == "group" and n.args and isinstance(n.args[0], ast.Constant) and isinstance(n.args[0].value, int) and n.args[0].value > 0:
+                positional.append((f_, n))
+    if positional:
+        capt = []
+        for key, ci in sorted(convertor_table(p).items()):
+            try:
+                rx_ = F.class_attr(ci, "regex")
+                n_groups = _P8.parse(rx_).state.groups - 1
+            except Exception:
+                n_groups = None
+            if n_groups:
+                capt.append((key, rx_))
+            elif n_groups is None:
+                rep.undecide("R8.2", f"{ci.name}.regex: number of capturing groups not determinable while Route.matches reads the match by position")
+        if capt:
+            f_, n = positional[0]
+            rep.violation("R8.2", construct(matches, text=f"parameters read by position: {ast.unparse(n)[:40]}"), where(f_, n),
+                          f"Route.matches pairs the placeholders with `{ast.unparse(n)[:40]}` BY POSITION, but the regex of the {capt[0][0]!r} convertor ({capt[0][1]!r}) contains a capturing group of its own: "
+                          "a placeholder that follows it receives that inner group's text (or None), so the typed parameter is wrong or the route does not match")
+        else:
+            rep.ok("R8.2", "Route.matches reads the match by position and no convertor regex has a capturing group of its own")
+    else:
+        rep.ok("R8.2", "Route.matches reads the placeholder texts by name (groupdict), not by position")
     rep.require_instances("R8.2", 2)
 
     # ------------------------------------------------------------------ R8.3
